@@ -149,8 +149,8 @@ func runC02(c *ctx, cfg c02cfg, seed int64) rTrace {
 		started <- struct{}{}
 		s.Pause("C.cancel", 0)
 		add(rEv{K: "cancel", C: 1})
+		arrive("C", "C.done", 0) // logged before the call: nothing else runs in between
 		cancel()
-		arrive("C", "C.done", 0)
 		s.Exit()
 	}()
 	<-started
@@ -212,6 +212,9 @@ func runC02(c *ctx, cfg c02cfg, seed int64) rTrace {
 		if pick == "" {
 			pick = cand[rng.Intn(len(cand))]
 		}
+		mu.Lock()
+		tr.Arr = append(tr.Arr, []any{pick, "REL", 0}) // the scheduler releases this goroutine now
+		mu.Unlock()
 		if _, err := s.Step(pick); err != nil {
 			tr.Err = err.Error()
 			break
